@@ -153,7 +153,9 @@ func epsCFCA() []*epT {
 	b64Prefixed := func(der []byte) []byte {
 		body := base64.StdEncoding.EncodeToString(der)
 		// commas are legal separators and are stripped by the parser
-		body = body[:40] + "," + body[40:]
+		if len(body) > 40 {
+			body = body[:40] + "," + body[40:]
+		}
 		return []byte(fmt.Sprintf("0000000000000001000000000000000100000000000000000000000000000000%016d%s", len(body), body))
 	}
 	escrow := func(n string, enc func([]byte) []byte) *epT {
